@@ -82,6 +82,27 @@ def anchor_modules(E: Engine, pid: str) -> set:
     return {m.name for m in E.P.modules.values() if m.relpath in files}
 
 
+STORED_ALLOWED = {
+    "AbstractArray.__init__|_array": "the wrapper itself: AbstractArray is documented as a view over the given array (callers that must own their data copy it)",
+    "Observable.__init__|evaluation_times": "a caller-given sequence of relative times kept by reference and only read (membership / iteration); documented as Sequence[float]",
+    "State.__init__|_eigenstates": "labels (strings) of the basis, normally a tuple; only read",
+    "QutipOperator.__init__|_eigenstates": "labels (strings) of the basis, normally a tuple; only read",
+    "RemoteResults.__init__|_job_ids": "remote handle, not part of the claimed properties",
+    "QutipEmulator.set_evaluation_times|_eval_times_instruction": "kept only for repr / later comparison; the evaluation times actually used are computed (copied) in the same call",
+    "SimulationResults.__init__|_sim_times": "internal constructor: called by the emulator with a freshly built array",
+    "CoherentResults.__init__|_meas_errors": "internal constructor: called by the emulator with a freshly built mapping",
+}
+
+
+def _mutable_param_annotation(ann: str) -> bool:
+    """The annotation admits an array / container the caller may go on editing (not a mere class named Sequence...)."""
+    import re as _re
+
+    if not ann:
+        return False
+    return bool(_re.search(r"\b(ArrayLike|TensorLike|AbstractArrayLike|ndarray|AbstractArray)\b", ann) or _re.search(r"\b(list|List|dict|Dict|set|Set|Sequence|Collection|Mapping|Iterable|MutableMapping|MutableSequence)\[", ann))
+
+
 GLOBAL_RETURN_ALLOWED = {
     "SimConfig.supported_noises": "legacy SimConfig: the table of supported noise types is only read (set difference) by its single internal caller; not part of a claimed property",
 }
@@ -277,6 +298,51 @@ def check(E: Engine, rep: Report, pid: str, rule: str = "NET", extra_modules: tu
                 rep.excepted(rule, key, GLOBAL_RETURN_ALLOWED[f.short], E.where(f, r_))
             else:
                 rep.violation(rule, key, f"{f.short} returns `{ast.unparse(v)[:60]}`, the module-level table {base.id} (or an entry of it) itself: a caller that edits the result (e.g. appends a state) changes the table for the whole process", E.where(f, r_))
+    # STORED: a method that keeps an array-like / container PARAMETER in an attribute of self as it was given -- also
+    # through wrappers that do not copy (`pm.AbstractArray(x)`, `np.asarray(x)`, `cast(T, x)`) -- shares it with the caller:
+    # an in-place edit of the caller's object afterwards changes this object.  What the fixed code does: `.copy()`,
+    # `np.array(x, ...)`, `tuple(x)`, `list(x)`, `dict(x)`.  Confirmed exceptions are listed by (class.method, attribute).
+    n_st = 0
+    for f in E.P.all_functions():
+        if f.kind == "overload" or f.module.name not in mods or f.cls is None:
+            continue
+        a_ = f.node.args
+        anns = {x.arg: ast.unparse(x.annotation) if x.annotation is not None else "" for x in a_.posonlyargs + a_.args + a_.kwonlyargs}
+        mut = {k for k, v in anns.items() if _mutable_param_annotation(v)}
+        if not mut:
+            continue
+        rebound = {x.id for x in ast.walk(f.node) if isinstance(x, ast.Name) and isinstance(x.ctx, ast.Store)}
+        for st in ast.walk(f.node):
+            tgt = val = None
+            if isinstance(st, ast.Assign) and len(st.targets) == 1 and isinstance(st.targets[0], ast.Attribute) and isinstance(st.targets[0].value, ast.Name) and st.targets[0].value.id == "self":
+                tgt, val = st.targets[0].attr, st.value
+            elif isinstance(st, ast.AnnAssign) and isinstance(st.target, ast.Attribute) and isinstance(st.target.value, ast.Name) and st.target.value.id == "self" and st.value is not None:
+                tgt, val = st.target.attr, st.value
+            elif isinstance(st, ast.Call) and ast.unparse(st.func) == "object.__setattr__" and len(st.args) == 3 and isinstance(st.args[1], ast.Constant):
+                tgt, val = st.args[1].value, st.args[2]
+            if val is None:
+                continue
+            def _unwrap(v):
+                while isinstance(v, ast.Call) and ast.unparse(v.func) in ("pm.AbstractArray", "AbstractArray", "np.asarray", "np.asanyarray", "cast") and v.args:
+                    v = v.args[-1] if ast.unparse(v.func) == "cast" else v.args[0]
+                return v
+
+            v = _unwrap(val)
+            if isinstance(v, ast.Name) and v.id not in mut and v.id in rebound:
+                # one step through a local bound exactly once (`arr = pm.AbstractArray(samples); self._x = arr`)
+                defs = [x for x in ast.walk(f.node) if isinstance(x, (ast.Assign, ast.AnnAssign)) and (x.value is not None) and any(isinstance(t_, ast.Name) and t_.id == v.id for t_ in (x.targets if isinstance(x, ast.Assign) else [x.target]))]
+                n_bind = sum(1 for x in ast.walk(f.node) if isinstance(x, ast.Name) and isinstance(x.ctx, ast.Store) and x.id == v.id)
+                if len(defs) == 1 and n_bind == 1:
+                    v = _unwrap(defs[0].value)
+            if not (isinstance(v, ast.Name) and v.id in mut and v.id not in rebound):
+                continue
+            n_st += 1
+            key = f"{f.short}|{tgt}|stored-as-given"
+            ex = STORED_ALLOWED.get(f"{f.short}|{tgt}")
+            if ex is not None:
+                rep.excepted(rule, key, ex, E.where(f, st))
+            else:
+                rep.violation(rule, key, f"{f.short} keeps the parameter `{v.id}` ({anns[v.id][:60]}) in self.{tgt} as `{ast.unparse(val)[:60]}`: no copy is made (AbstractArray / np.asarray / cast share the caller's array), so an in-place edit of the caller's object afterwards changes this object", E.where(f, st))
     # CACHED: a public member computed once (`cached_property`, `lru_cache`, `cache`) hands the very same object to every
     # caller; that is fine for immutable values only (on the tree: tuple/bool results; the cached containers are private)
     n_cached = 0
@@ -323,4 +389,4 @@ def check(E: Engine, rep: Report, pid: str, rule: str = "NET", extra_modules: tu
             visit(n.test, False)
     if n_par < 5:
         rep.error(f"UNUSED: only {n_par} parameters inspected for {pid} (anchor modules not found?)")
-    return {"parameters_inspected": n_par, "locals_inspected": n_loc, "post_loop_reads": n_leak, "array_rejections": n_q, "direct_returns": n_dir, "cached_public_members": n_cached, "module_table_returns": n_glob}
+    return {"parameters_inspected": n_par, "locals_inspected": n_loc, "post_loop_reads": n_leak, "array_rejections": n_q, "direct_returns": n_dir, "cached_public_members": n_cached, "module_table_returns": n_glob, "stored_parameters": n_st}
